@@ -31,7 +31,8 @@ O3 = ["none", "rev", "sub"]
 B2 = [False, True]
 M2 = ["median", "mean"]
 E3 = ["q", "std", "stderr"]
-BINS = ["auto", "n4", "nN", "e1", "e3", "eu", "en"]   # eu: explicit unequal edges; en: explicit edges narrower than the data
+# eu: explicit unequal edges; en: explicit edges narrower than the data; ee: explicit edges that coincide with samples
+BINS = ["auto", "n4", "nN", "e1", "e3", "eu", "en", "ee"]
 XD3 = ["all", "line", "one"]                             # dims of the x variable
 
 
@@ -76,10 +77,10 @@ def configs(tier):
         Aggs=["auto", "all"], Methods=M2, Pals=B2)
     # --- histograms
     add("G2", (1, 6323), (1, 203), Sizes=[3, 3], Mode="hist", MaxMapped=1, Orders=O3, Dens=B2, Bins=BINS, Pals=B2)
-    add("G3", (5, 4663), (1, 899), Sizes=[2, 3, 3], Mode="hist", MaxMapped=2, Fuse=True, MaskFam="struct", Orders=O3, Dens=B2, Bins=BINS, Pals=B2)
+    add("G3", (5, 5329), (1, 899), Sizes=[2, 3, 3], Mode="hist", MaxMapped=2, Fuse=True, MaskFam="struct", Orders=O3, Dens=B2, Bins=BINS, Pals=B2)
     if HIST_ALL_MAPPED:
-        add("G2a", (1, 1171), (1, 97), Sizes=[3, 2], Mode="hist", MaxMapped=2, HistAll=True, Orders=O3, Dens=B2, Bins=BINS)
-    add("G4", (113, 4663), (4, 4001), Sizes=[2, 3, 2, 3], Mode="hist", MaxMapped=3, Fuse=True, MaskFam="struct", Orders=O3, Dens=B2, Bins=BINS)
+        add("G2a", (1, 1338), (1, 97), Sizes=[3, 2], Mode="hist", MaxMapped=2, HistAll=True, Orders=O3, Dens=B2, Bins=BINS)
+    add("G4", (113, 5329), (4, 4001), Sizes=[2, 3, 2, 3], Mode="hist", MaxMapped=3, Fuse=True, MaskFam="struct", Orders=O3, Dens=B2, Bins=BINS)
     return L
 
 
@@ -95,13 +96,13 @@ def exhaustive_configs(tier):
     # with -coverage (vacuity check of the actions); TLC does not cache under coverage, so these stay small
     add("XL", True, Sizes=[2, 2, 2], MaxMapped=1, Orders=["sub"], Joins=[True])
     add("XH", True, Sizes=[2, 2, 2], Mode="heat", MaxMapped=1, Orders=["sub"], Aggs=["auto"])
-    add("XG", True, Sizes=[2, 2, 2], Mode="hist", MaxMapped=1, Dens=[True], Bins=["n4"])
+    add("XG", True, Sizes=[2, 2, 2], Mode="hist", MaxMapped=1, Dens=[True], Bins=["ee"])
     if tier == "thorough":
         add("XL2", False, Sizes=[2, 2, 2], MaxMapped=2, Fuse=True, Orders=O3, Joins=B2)
         add("XLg", False, Sizes=[2, 2, 2], MaxMapped=1, Orders=["none", "sub"], Joins=B2, Aggs=["all"], Methods=M2)
         add("XLx", False, Sizes=[2, 3], MaxMapped=1, XVar=True, XDeps=XD3, Orders=O3, Joins=B2)
         add("XH2", False, Sizes=[2, 2, 2], Mode="heat", MaxMapped=1, Orders=O3, Aggs=["auto"])
-        add("XG2", False, Sizes=[2, 2, 2], Mode="hist", MaxMapped=2, Orders=["none", "sub"], Dens=B2, Bins=["n4", "eu", "en"])
+        add("XG2", False, Sizes=[2, 2, 2], Mode="hist", MaxMapped=2, Orders=["none", "sub"], Dens=B2, Bins=["n4", "ee", "en"])
     return L
 
 
